@@ -79,6 +79,14 @@ def case_strategy(draw):
         if len(x) < 4:
             x = [lo + span * i / 5 for i in range(6)]
         kw['everyn'] = draw(st.integers(1, max(1, len(x) // 2)))
+        if kw['everyn'] >= 3 and len(x) >= 8 and draw(st.booleans()):
+            # some interior values occur twice (two exposures on one grid); fewer repeats than the step between breakpoints,
+            # so the breakpoints stay distinct, and none at the extremes
+            xs_ = sorted(x)
+            for j in draw(st.lists(st.integers(2, len(xs_) - 3), min_size=1, max_size=4, unique=True)):
+                xs_.append(xs_[j])
+            x = sorted(xs_)
+            kw['everyn'] = min(kw['everyn'], len(x) // 2)
     order = draw(st.sampled_from(['sorted', 'shuffled']))
     x = sorted(x) if order == 'sorted' else list(draw(st.permutations(x)))
     kw['bkspread'] = draw(st.sampled_from([1.0, 1.0, 0.5, 2.0, 1.3]))
